@@ -44,6 +44,34 @@ Proof.
 Qed.
 
 (* ------------------------------------------------------------------------------------------------ *)
+(* what a result may be: [ok false r] = r is no panic at all; [ok true r] = r is no panic except possibly the
+   decimal library's exponent-overflow panic *)
+
+Definition ok (allow_exp : bool) (r : res) : Prop :=
+  match r with
+  | Panic PExponent => allow_exp = true
+  | Panic _ => False
+  | _ => True
+  end.
+
+Lemma ok_false_iff : forall r, ok false r <-> forall c, r <> Panic c.
+Proof.
+  intros r; split.
+  - intros H c E. subst r. destruct c; simpl in H; try contradiction; discriminate.
+  - intros H. destruct r as [v|c|]; simpl; auto. destruct c; try (exfalso; eapply H; reflexivity).
+Qed.
+
+Lemma ok_true_iff : forall r, ok true r <-> forall c, r = Panic c -> c = PExponent.
+Proof.
+  intros r; split.
+  - intros H c E. subst r. destruct c; simpl in H; try contradiction; reflexivity.
+  - intros H. destruct r as [v|c|]; simpl; auto. destruct c; auto; specialize (H _ eq_refl); discriminate.
+Qed.
+
+Lemma ok_weaken : forall b r, ok false r -> ok b r.
+Proof. intros b [v|[]|]; simpl; auto; discriminate. Qed.
+
+(* ------------------------------------------------------------------------------------------------ *)
 (* the continuation combinators *)
 
 Section WithExt.
@@ -51,17 +79,18 @@ Section WithExt.
 Variable wclass : N -> N.
 Variable regex_submatch : text -> text -> option (list text).
 Variable ext_call : N -> list value -> res.
+Variable b : bool.
 
 Lemma with_arg_ok : forall args k f,
-  (k < length args)%nat -> (forall v, f v <> Panic) -> with_arg args k f <> Panic.
+  (k < length args)%nat -> (forall v, ok b (f v)) -> ok b (with_arg args k f).
 Proof.
   intros args k f Hk Hf. unfold with_arg.
   destruct (nth_error args k) eqn:E; [apply Hf|]. apply nth_error_None in E. lia.
 Qed.
 
 Lemma with_rest_ok : forall args k f,
-  (k <= length args)%nat -> (forall r, (length r = length args - k)%nat -> f r <> Panic) ->
-  with_rest args k f <> Panic.
+  (k <= length args)%nat -> (forall r, (length r = length args - k)%nat -> ok b (f r)) ->
+  ok b (with_rest args k f).
 Proof.
   intros args k f Hk Hf. unfold with_rest.
   destruct (go_slice_from args (Z.of_nat k)) eqn:E.
@@ -74,19 +103,19 @@ Definition admitted (min : nat) (max : Z) (n : nat) : Prop :=
   (min <= n)%nat /\ (max < 0 \/ Z.of_nat n <= max).
 
 Lemma min_max_args_ok : forall min max f,
-  (forall args, admitted min max (length args) -> f args <> Panic) ->
-  forall args, min_max_args min max f args <> Panic.
+  (forall args, admitted min max (length args) -> ok b (f args)) ->
+  forall args, ok b (min_max_args min max f args).
 Proof.
   intros min max f Hf args. unfold min_max_args.
   destruct (Z.of_nat min =? max) eqn:E1.
-  - apply Z.eqb_eq in E1. destruct (Nat.eqb (length args) min) eqn:E2; simpl; [|discriminate].
+  - apply Z.eqb_eq in E1. destruct (Nat.eqb (length args) min) eqn:E2; simpl; [|exact I].
     apply Nat.eqb_eq in E2. apply Hf. unfold admitted. lia.
   - destruct (max <? 0) eqn:E2.
-    + apply Z.ltb_lt in E2. destruct (Nat.ltb (length args) min) eqn:E3; [discriminate|].
+    + apply Z.ltb_lt in E2. destruct (Nat.ltb (length args) min) eqn:E3; [exact I|].
       apply Nat.ltb_ge in E3. apply Hf. unfold admitted. lia.
     + apply Z.ltb_ge in E2.
-      destruct (Nat.ltb (length args) min) eqn:E3; simpl; [discriminate|].
-      destruct (max <? Z.of_nat (length args)) eqn:E4; [discriminate|].
+      destruct (Nat.ltb (length args) min) eqn:E3; simpl; [exact I|].
+      destruct (max <? Z.of_nat (length args)) eqn:E4; [exact I|].
       apply Nat.ltb_ge in E3. apply Z.ltb_ge in E4. apply Hf. unfold admitted. lia.
 Qed.
 
@@ -107,285 +136,621 @@ Proof.
       apply Nat.ltb_ge in E3. apply Z.ltb_ge in E4. exfalso. apply H. lia.
 Qed.
 
-Ltac conv_cases :=
-  repeat match goal with
-  | |- Ret _ <> Panic => discriminate
-  | |- (match ?c with Ok _ => _ | Bad => _ end) <> Panic => destruct c
-  | |- (if ?b then _ else _) <> Panic => destruct b eqn:?
-  end.
-
 Lemma num_args_ok : forall n f,
-  (forall args, length args = n -> f args <> Panic) -> forall args, num_args n f args <> Panic.
+  (forall args, length args = n -> ok b (f args)) -> forall args, ok b (num_args n f args).
 Proof.
   intros n f Hf. apply min_max_args_ok. intros args [H1 [H2|H2]]; apply Hf; lia.
 Qed.
 
 Lemma initial_text_function_ok : forall mn mx f,
-  (forall t r, (mn <= length r <= mx)%nat -> f t r <> Panic) ->
-  forall args, initial_text_function mn mx f args <> Panic.
+  (forall t r, (mn <= length r <= mx)%nat -> ok b (f t r)) ->
+  forall args, ok b (initial_text_function mn mx f args).
 Proof.
   intros mn mx f Hf. apply min_max_args_ok. intros args [H1 [H2|H2]]; [lia|].
-  apply with_arg_ok; [lia|]. intros v. destruct (to_text v); [|discriminate].
+  apply with_arg_ok; [lia|]. intros v. destruct (to_text v); [|exact I].
   apply with_rest_ok; [lia|]. intros r Hr. apply Hf. lia.
 Qed.
 
 Lemma one_number_function_ok : forall f,
-  (forall d, f d <> Panic) -> forall args, one_number_function f args <> Panic.
+  (forall d, ok b (f d)) -> forall args, ok b (one_number_function f args).
 Proof.
   intros f Hf. apply num_args_ok. intros args Hl.
-  apply with_arg_ok; [lia|]. intros v. destruct (to_number v); [apply Hf|discriminate].
+  apply with_arg_ok; [lia|]. intros v. destruct (to_number v); [apply Hf|exact I].
+Qed.
+
+Lemma two_number_function_ok : forall f,
+  (forall x y, ok b (f x y)) -> forall args, ok b (two_number_function f args).
+Proof.
+  intros f Hf. apply num_args_ok. intros args Hl.
+  apply with_arg_ok; [lia|]. intros v. destruct (to_number v); [|exact I].
+  apply with_arg_ok; [lia|]. intros v'. destruct (to_number v'); [apply Hf|exact I].
 Qed.
 
 Lemma text_and_integer_function_ok : forall f,
-  (forall t n, f t n <> Panic) -> forall args, text_and_integer_function f args <> Panic.
+  (forall t n, ok b (f t n)) -> forall args, ok b (text_and_integer_function f args).
 Proof.
   intros f Hf. apply num_args_ok. intros args Hl.
-  apply with_arg_ok; [lia|]. intros v. destruct (to_text v); [|discriminate].
-  apply with_arg_ok; [lia|]. intros v'. destruct (to_integer v'); [apply Hf|discriminate].
+  apply with_arg_ok; [lia|]. intros v. destruct (to_text v); [|exact I].
+  apply with_arg_ok; [lia|]. intros v'. destruct (to_integer v'); [apply Hf|exact I].
 Qed.
 
 Lemma one_number_and_optional_integer_function_ok : forall f dflt,
-  (forall d n, f d n <> Panic) -> forall args, one_number_and_optional_integer_function f dflt args <> Panic.
+  (forall d n, ok b (f d n)) -> forall args, ok b (one_number_and_optional_integer_function f dflt args).
 Proof.
   intros f dflt Hf. apply min_max_args_ok. intros args [H1 [H2|H2]]; [lia|].
-  apply with_arg_ok; [lia|]. intros v. destruct (to_number v); [|discriminate].
+  apply with_arg_ok; [lia|]. intros v. destruct (to_number v); [|exact I].
   destruct (Nat.eqb (length args) 2) eqn:E; [|apply Hf].
-  apply Nat.eqb_eq in E. apply with_arg_ok; [lia|]. intros v'. destruct (to_integer v'); [apply Hf|discriminate].
+  apply Nat.eqb_eq in E. apply with_arg_ok; [lia|]. intros v'. destruct (to_integer v'); [apply Hf|exact I].
 Qed.
 
 Lemma three_integer_function_ok : forall f,
-  (forall a b c, f a b c <> Panic) -> forall args, three_integer_function f args <> Panic.
+  (forall x y z, ok b (f x y z)) -> forall args, ok b (three_integer_function f args).
 Proof.
   intros f Hf. apply num_args_ok. intros args Hl.
-  apply with_arg_ok; [lia|]. intros v0. destruct (to_integer v0); [|discriminate].
-  apply with_arg_ok; [lia|]. intros v1. destruct (to_integer v1); [|discriminate].
-  apply with_arg_ok; [lia|]. intros v2. destruct (to_integer v2); [apply Hf|discriminate].
+  apply with_arg_ok; [lia|]. intros v0. destruct (to_integer v0); [|exact I].
+  apply with_arg_ok; [lia|]. intros v1. destruct (to_integer v1); [|exact I].
+  apply with_arg_ok; [lia|]. intros v2. destruct (to_integer v2); [apply Hf|exact I].
 Qed.
 
 (* a guarded index *)
 Lemma guarded_index : forall {A} (l : list A) i (k : A -> res),
-  0 <= i < zlen l -> (forall x, k x <> Panic) ->
-  match go_index l i with Some w => k w | None => Panic end <> Panic.
+  0 <= i < zlen l -> (forall x, ok b (k x)) ->
+  ok b (match go_index l i with Some w => k w | None => Panic PBounds end).
 Proof. intros A l i k H Hk. destruct (go_index_some l i H) as [x ->]. apply Hk. Qed.
 
 (* ------------------------------------------------------------------------------------------------ *)
 (* the bodies *)
 
-Lemma word_finish_ok : forall t index delims, word_finish wclass t index delims <> Panic.
+Lemma word_finish_ok : forall t index delims, ok b (word_finish wclass t index delims).
 Proof.
   intros t index delims. unfold word_finish. cbv zeta.
-  destruct (negb _) eqn:E; [discriminate|]. apply negb_false_iff in E.
+  destruct (negb _) eqn:E; [exact I|]. apply negb_false_iff in E.
   apply andb_prop in E as [E1 E2]. apply Z.leb_le in E1. apply Z.ltb_lt in E2.
-  apply guarded_index; [lia|]. discriminate.
+  apply guarded_index; [lia|]. intros; exact I.
 Qed.
 
-Lemma word_body_ok : forall t r, (1 <= length r <= 2)%nat -> word_body wclass t r <> Panic.
+Lemma word_body_ok : forall t r, (1 <= length r <= 2)%nat -> ok b (word_body wclass t r).
 Proof.
   intros t r Hr. unfold word_body.
-  apply with_arg_ok; [lia|]. intros va0. destruct (to_integer va0) as [index|]; [|discriminate].
+  apply with_arg_ok; [lia|]. intros va0. destruct (to_integer va0) as [index|]; [|exact I].
   destruct (Nat.eqb (length r) 2) eqn:E2; [|apply word_finish_ok].
   apply Nat.eqb_eq in E2. apply with_arg_ok; [lia|]. intros va1.
-  destruct (is_nil va1); [apply word_finish_ok|]. destruct (to_text va1); [apply word_finish_ok|discriminate].
+  destruct (is_nil va1); [apply word_finish_ok|]. destruct (to_text va1); [apply word_finish_ok|exact I].
 Qed.
 
 Lemma word_slice_finish_ok : forall t start end_ delims,
   0 <= start -> (0 <? end_) && (end_ <=? start) = false ->
-  word_slice_finish wclass t start end_ delims <> Panic.
+  ok b (word_slice_finish wclass t start end_ delims).
 Proof.
   intros t start end_ delims Es Hg. unfold word_slice_finish. cbv zeta.
   set (words := extract_words wclass t delims).
-  destruct (zlen words <=? start) eqn:E1; [discriminate|]. apply Z.leb_gt in E1.
+  destruct (zlen words <=? start) eqn:E1; [exact I|]. apply Z.leb_gt in E1.
   destruct (zlen words <=? end_) eqn:E2.
   - apply Z.leb_le in E2. destruct (0 <? zlen words) eqn:E3.
-    + destruct (go_slice_some words start (zlen words)) as [s ->]; [lia|lia|discriminate].
-    + destruct (go_slice_from_some words start) as [s ->]; [lia|discriminate].
+    + destruct (go_slice_some words start (zlen words)) as [s ->]; [lia|lia|exact I].
+    + destruct (go_slice_from_some words start) as [s ->]; [lia|exact I].
   - apply Z.leb_gt in E2. destruct (0 <? end_) eqn:E3.
     + simpl in Hg. apply Z.leb_gt in Hg. apply Z.ltb_lt in E3.
-      destruct (go_slice_some words start end_) as [s ->]; [lia|lia|discriminate].
-    + destruct (go_slice_from_some words start) as [s ->]; [lia|discriminate].
+      destruct (go_slice_some words start end_) as [s ->]; [lia|lia|exact I].
+    + destruct (go_slice_from_some words start) as [s ->]; [lia|exact I].
 Qed.
 
 Lemma word_slice_after_end_ok : forall t r start end_,
-  0 <= start -> word_slice_after_end wclass t r start end_ <> Panic.
+  0 <= start -> ok b (word_slice_after_end wclass t r start end_).
 Proof.
   intros t r start end_ Es. unfold word_slice_after_end.
-  destruct ((0 <? end_) && (end_ <=? start)) eqn:Hg; [discriminate|].
+  destruct ((0 <? end_) && (end_ <=? start)) eqn:Hg; [exact I|].
   destruct (Nat.leb 3 (length r)) eqn:E3; [|apply word_slice_finish_ok; assumption].
   apply Nat.leb_le in E3. apply with_arg_ok; [lia|]. intros va2.
   destruct (is_nil va2); [apply word_slice_finish_ok; assumption|].
-  destruct (to_text va2) as [d|]; [apply word_slice_finish_ok; assumption|discriminate].
+  destruct (to_text va2) as [d|]; [apply word_slice_finish_ok; assumption|exact I].
 Qed.
 
-Lemma word_slice_body_ok : forall t r, (1 <= length r <= 3)%nat -> word_slice_body wclass t r <> Panic.
+Lemma word_slice_body_ok : forall t r, (1 <= length r <= 3)%nat -> ok b (word_slice_body wclass t r).
 Proof.
   intros t r Hr. unfold word_slice_body.
-  apply with_arg_ok; [lia|]. intros va0. destruct (to_integer va0) as [start|]; [|discriminate].
-  destruct (start <? 0) eqn:Es; [discriminate|]. apply Z.ltb_ge in Es.
+  apply with_arg_ok; [lia|]. intros va0. destruct (to_integer va0) as [start|]; [|exact I].
+  destruct (start <? 0) eqn:Es; [exact I|]. apply Z.ltb_ge in Es.
   destruct (Nat.leb 2 (length r)) eqn:E2; [|apply word_slice_after_end_ok; assumption].
   apply Nat.leb_le in E2. apply with_arg_ok; [lia|]. intros va1.
-  destruct (to_integer va1) as [e|]; [apply word_slice_after_end_ok; assumption|discriminate].
+  destruct (to_integer va1) as [e|]; [apply word_slice_after_end_ok; assumption|exact I].
 Qed.
 
-Lemma field_body_ok : forall t r, length r = 2%nat -> field_body t r <> Panic.
+Lemma field_body_ok : forall t r, length r = 2%nat -> ok b (field_body t r).
 Proof.
   intros t r Hr. unfold field_body.
-  apply with_arg_ok; [lia|]. intros va0. destruct (to_integer va0) as [field|]; [|discriminate].
-  destruct (field <? 0) eqn:Ef; [discriminate|]. apply Z.ltb_ge in Ef.
-  apply with_arg_ok; [lia|]. intros va1. destruct (to_text va1) as [sep|]; [|discriminate].
+  apply with_arg_ok; [lia|]. intros va0. destruct (to_integer va0) as [field|]; [|exact I].
+  destruct (field <? 0) eqn:Ef; [exact I|]. apply Z.ltb_ge in Ef.
+  apply with_arg_ok; [lia|]. intros va1. destruct (to_text va1) as [sep|]; [|exact I].
   cbv zeta.
-  match goal with |- (if zlen ?l <=? field then _ else _) <> Panic => set (fields := l) end.
-  destruct (zlen fields <=? field) eqn:E; [discriminate|]. apply Z.leb_gt in E.
-  apply guarded_index; [lia|]. discriminate.
+  match goal with |- ok b (if zlen ?l <=? field then _ else _) => set (fields := l) end.
+  destruct (zlen fields <=? field) eqn:E; [exact I|]. apply Z.leb_gt in E.
+  apply guarded_index; [lia|]. intros; exact I.
 Qed.
 
-Lemma text_slice_body_ok : forall t r, (1 <= length r <= 3)%nat -> text_slice_body t r <> Panic.
+Lemma text_slice_body_ok : forall t r, (1 <= length r <= 3)%nat -> ok b (text_slice_body t r).
 Proof.
   intros t r Hr. unfold text_slice_body. cbv zeta.
-  apply with_arg_ok; [lia|]. intros va0. destruct (to_integer va0) as [start|]; [|discriminate].
-  destruct (Nat.eqb (length r) 2) eqn:E2; [|discriminate].
+  apply with_arg_ok; [lia|]. intros va0. destruct (to_integer va0) as [start|]; [|exact I].
+  destruct (Nat.eqb (length r) 2) eqn:E2; [|exact I].
   apply Nat.eqb_eq in E2. apply with_arg_ok; [lia|]. intros va1.
-  destruct (to_integer va1); discriminate.
+  destruct (to_integer va1); exact I.
 Qed.
 
-Lemma char_body_ok : forall d, char_body d <> Panic.
-Proof. intros d. unfold char_body. destruct (to_integer (VNum d)); discriminate. Qed.
+Lemma char_body_ok : forall d, ok b (char_body d).
+Proof. intros d. unfold char_body. destruct (to_integer (VNum d)); exact I. Qed.
 
-Lemma repeat_body_ok : forall t n, repeat_body t n <> Panic.
-Proof. intros t n. unfold repeat_body. destruct (n <? 0); [discriminate|]. destruct t; discriminate. Qed.
+Lemma repeat_body_ok : forall t n, ok b (repeat_body t n).
+Proof. intros t n. unfold repeat_body. destruct (n <? 0); [exact I|]. destruct t; exact I. Qed.
 
-Lemma replace_body_ok : forall args, (3 <= length args <= 4)%nat -> replace_body args <> Panic.
+Lemma replace_body_ok : forall args, (3 <= length args <= 4)%nat -> ok b (replace_body args).
 Proof.
   intros args H. unfold replace_body.
-  apply with_arg_ok; [lia|]. intros va0. destruct (to_text va0); [|discriminate].
-  apply with_arg_ok; [lia|]. intros va1. destruct (to_text va1); [|discriminate].
-  apply with_arg_ok; [lia|]. intros va2. destruct (to_text va2); [|discriminate].
-  destruct (Nat.eqb (length args) 4) eqn:E; [|discriminate].
-  apply Nat.eqb_eq in E. apply with_arg_ok; [lia|]. intros va3. destruct (to_integer va3); discriminate.
+  apply with_arg_ok; [lia|]. intros va0. destruct (to_text va0); [|exact I].
+  apply with_arg_ok; [lia|]. intros va1. destruct (to_text va1); [|exact I].
+  apply with_arg_ok; [lia|]. intros va2. destruct (to_text va2); [|exact I].
+  destruct (Nat.eqb (length args) 4) eqn:E; [|exact I].
+  apply Nat.eqb_eq in E. apply with_arg_ok; [lia|]. intros va3. destruct (to_integer va3); exact I.
 Qed.
 
-Lemma round_body_ok : forall d n, round_body d n <> Panic.
-Proof. intros. unfold round_body. destruct (bad_places n); discriminate. Qed.
-Lemma round_up_body_ok : forall d n, round_up_body d n <> Panic.
-Proof. intros. unfold round_up_body. destruct (bad_places n); [discriminate|]. destruct (dec_eqb _ _); discriminate. Qed.
-Lemma round_down_body_ok : forall d n, round_down_body d n <> Panic.
-Proof. intros. unfold round_down_body. destruct (bad_places n); [discriminate|]. destruct (dec_eqb _ _); discriminate. Qed.
+Lemma round_body_ok : forall d n, ok b (round_body d n).
+Proof. intros. unfold round_body. destruct (bad_places n); exact I. Qed.
+Lemma round_up_body_ok : forall d n, ok b (round_up_body d n).
+Proof. intros. unfold round_up_body. destruct (bad_places n); [exact I|]. destruct (dec_eqb _ _); exact I. Qed.
+Lemma round_down_body_ok : forall d n, ok b (round_down_body d n).
+Proof. intros. unfold round_down_body. destruct (bad_places n); [exact I|]. destruct (dec_eqb _ _); exact I. Qed.
 
-Lemma format_number_body_ok : forall args, (1 <= length args <= 3)%nat -> format_number_body args <> Panic.
+Lemma format_number_body_ok : forall args, (1 <= length args <= 3)%nat -> ok b (format_number_body args).
 Proof.
   intros args H. unfold format_number_body.
-  assert (Hf : forall num places, format_number_finish args num places <> Panic).
-  { intros num places. unfold format_number_finish. destruct (Nat.ltb 2 (length args)) eqn:E; [|discriminate].
-    apply Nat.ltb_lt in E. apply with_arg_ok; [lia|]. intros va2. destruct (to_bool va2); discriminate. }
-  apply with_arg_ok; [lia|]. intros va0. destruct (to_number va0) as [num|]; [|discriminate].
+  assert (Hf : forall num places, ok b (format_number_finish args num places)).
+  { intros num places. unfold format_number_finish. destruct (Nat.ltb 2 (length args)) eqn:E; [|exact I].
+    apply Nat.ltb_lt in E. apply with_arg_ok; [lia|]. intros va2. destruct (to_bool va2); exact I. }
+  apply with_arg_ok; [lia|]. intros va0. destruct (to_number va0) as [num|]; [|exact I].
   destruct (Nat.ltb 1 (length args)) eqn:E; [|apply Hf].
-  apply Nat.ltb_lt in E. apply with_arg_ok; [lia|]. intros va1. destruct (to_integer va1) as [places|]; [|discriminate].
-  destruct ((places <? 0) || (9 <? places)); [discriminate|apply Hf].
+  apply Nat.ltb_lt in E. apply with_arg_ok; [lia|]. intros va1. destruct (to_integer va1) as [places|]; [|exact I].
+  destruct ((places <? 0) || (9 <? places)); [exact I|apply Hf].
 Qed.
 
-Lemma date_from_parts_body_ok : forall a b c, date_from_parts_body a b c <> Panic.
-Proof. intros. unfold date_from_parts_body. destruct (_ || _); discriminate. Qed.
+Lemma date_from_parts_body_ok : forall x y z, ok b (date_from_parts_body x y z).
+Proof. intros. unfold date_from_parts_body. destruct (_ || _); exact I. Qed.
 
-Lemma time_from_parts_body_ok : forall a b c, time_from_parts_body a b c <> Panic.
-Proof. intros. unfold time_from_parts_body. repeat (destruct (_ || _); [discriminate|]). discriminate. Qed.
+Lemma time_from_parts_body_ok : forall x y z, ok b (time_from_parts_body x y z).
+Proof. intros. unfold time_from_parts_body. repeat (destruct (_ || _); [exact I|]). exact I. Qed.
 
-Lemma datetime_add_fn_ok : forall args, datetime_add_fn args <> Panic.
+Lemma datetime_add_fn_ok : forall args, ok b (datetime_add_fn args).
 Proof.
-  intros args. unfold datetime_add_fn. destruct (Nat.eqb (length args) 3) eqn:E; simpl; [|discriminate].
+  intros args. unfold datetime_add_fn. destruct (Nat.eqb (length args) 3) eqn:E; simpl; [|exact I].
   apply Nat.eqb_eq in E.
-  apply with_arg_ok; [lia|]. intros va0. destruct (to_datetime va0); [|discriminate].
-  apply with_arg_ok; [lia|]. intros va1. destruct (to_integer va1); [|discriminate].
-  apply with_arg_ok; [lia|]. intros va2. destruct (to_text va2) as [u|]; [|discriminate].
-  destruct u as [|c [|c' u]]; try discriminate.
-  match goal with |- (if ?b then _ else _) <> _ => destruct b end; discriminate.
+  apply with_arg_ok; [lia|]. intros va0. destruct (to_datetime va0); [|exact I].
+  apply with_arg_ok; [lia|]. intros va1. destruct (to_integer va1); [|exact I].
+  apply with_arg_ok; [lia|]. intros va2. destruct (to_text va2) as [u|]; [|exact I].
+  destruct u as [|c [|c' u]]; try exact I.
+  match goal with |- ok b (if ?x then _ else _) => destruct x end; exact I.
 Qed.
 
-Lemma array_fn_ok : forall args, array_fn args <> Panic.
-Proof. intros. unfold array_fn. destruct (find is_err args); discriminate. Qed.
+Lemma array_fn_ok : forall args, ok b (array_fn args).
+Proof. intros. unfold array_fn. destruct (find is_err args); exact I. Qed.
 
-Lemma regex_match_body_ok : forall t r, (1 <= length r <= 2)%nat -> regex_match_body regex_submatch t r <> Panic.
+Lemma regex_match_body_ok : forall t r, (1 <= length r <= 2)%nat -> ok b (regex_match_body regex_submatch t r).
 Proof.
   intros t r Hr. unfold regex_match_body.
-  assert (Hf : forall pattern g, regex_match_finish regex_submatch t pattern g <> Panic).
-  { intros pattern g. unfold regex_match_finish. destruct (regex_submatch pattern t) as [groups|]; [|discriminate].
-    destruct ((g <? 0) || (zlen groups <=? g)) eqn:E; [discriminate|].
+  assert (Hf : forall pattern g, ok b (regex_match_finish regex_submatch t pattern g)).
+  { intros pattern g. unfold regex_match_finish. destruct (regex_submatch pattern t) as [groups|]; [|exact I].
+    destruct ((g <? 0) || (zlen groups <=? g)) eqn:E; [exact I|].
     apply orb_false_iff in E as [E1 E2]. apply Z.ltb_ge in E1. apply Z.leb_gt in E2.
-    apply guarded_index; [lia|]. discriminate. }
-  apply with_arg_ok; [lia|]. intros va0. destruct (to_text va0) as [pattern|]; [|discriminate].
+    apply guarded_index; [lia|]. intros; exact I. }
+  apply with_arg_ok; [lia|]. intros va0. destruct (to_text va0) as [pattern|]; [|exact I].
   destruct (Nat.eqb (length r) 2) eqn:E; [|apply Hf].
-  apply Nat.eqb_eq in E. apply with_arg_ok; [lia|]. intros va1. destruct (to_integer va1); [apply Hf|discriminate].
+  apply Nat.eqb_eq in E. apply with_arg_ok; [lia|]. intros va1. destruct (to_integer va1); [apply Hf|exact I].
 Qed.
 
-Lemma extract_object_body_ok : forall args, (2 <= length args)%nat -> extract_object_body args <> Panic.
+Lemma extract_object_body_ok : forall args, (2 <= length args)%nat -> ok b (extract_object_body args).
 Proof.
   intros args H. unfold extract_object_body.
-  apply with_arg_ok; [lia|]. intros va0. destruct (to_object va0); [|discriminate].
-  apply with_rest_ok; [lia|]. intros r _. destruct (texts_of r); discriminate.
+  apply with_arg_ok; [lia|]. intros va0. destruct (to_object va0); [|exact I].
+  apply with_rest_ok; [lia|]. intros r _. destruct (texts_of r); exact I.
 Qed.
 
-Lemma fold_extreme_ok : forall pick vs cur, fold_extreme pick vs cur <> Panic.
+Lemma fold_extreme_ok : forall pick vs cur, ok b (fold_extreme pick vs cur).
 Proof.
-  intros pick vs. induction vs as [|v r IH]; intros cur; simpl; [discriminate|].
-  destruct (to_number v); [apply IH|discriminate].
+  intros pick vs. induction vs as [|v r IH]; intros cur; simpl; [exact I|].
+  destruct (to_number v); [apply IH|exact I].
 Qed.
 
-Lemma extreme_body_ok : forall pick args, (1 <= length args)%nat -> extreme_body pick args <> Panic.
+Lemma extreme_body_ok : forall pick args, (1 <= length args)%nat -> ok b (extreme_body pick args).
 Proof.
   intros pick args H. unfold extreme_body.
-  apply with_arg_ok; [lia|]. intros v0. destruct (to_number v0); [|discriminate].
+  apply with_arg_ok; [lia|]. intros v0. destruct (to_number v0); [|exact I].
   apply with_rest_ok; [lia|]. intros r _. apply fold_extreme_ok.
 Qed.
 
 Lemma has_group_loop_ok : forall fuel items i uuid,
-  0 <= i -> has_group_loop fuel items i uuid <> Panic.
+  0 <= i -> ok b (has_group_loop fuel items i uuid).
 Proof.
-  induction fuel as [|fuel IH]; intros items i uuid Hi; simpl; [discriminate|].
-  destruct (i <? zlen items) eqn:E; simpl; [|discriminate]. apply Z.ltb_lt in E.
+  induction fuel as [|fuel IH]; intros items i uuid Hi; simpl; [exact I|].
+  destruct (i <? zlen items) eqn:E; simpl; [|exact I]. apply Z.ltb_lt in E.
   destruct (go_index_some items i) as [item ->]; [lia|].
-  destruct (to_object item) as [group|]; [|discriminate].
-  destruct (to_text _) as [u|]; [|discriminate].
-  destruct (text_eqb u uuid); [discriminate|]. apply IH. lia.
+  destruct (to_object item) as [group|]; [|exact I].
+  destruct (to_text _) as [u|]; [|exact I].
+  destruct (text_eqb u uuid); [exact I|]. apply IH. lia.
 Qed.
 
-Lemma has_group_loop_fuel : forall fuel items i uuid,
-  0 <= i -> (Z.to_nat (zlen items - i) < fuel)%nat -> has_group_loop fuel items i uuid <> NoFuel.
-Proof.
-  induction fuel as [|fuel IH]; intros items i uuid Hi Hf; [lia|]. simpl.
-  destruct (i <? zlen items) eqn:E; simpl; [|discriminate]. apply Z.ltb_lt in E.
-  destruct (go_index items i) as [item|]; [|discriminate].
-  destruct (to_object item) as [group|]; [|discriminate].
-  destruct (to_text _) as [u|]; [|discriminate].
-  destruct (text_eqb u uuid); [discriminate|]. apply IH; lia.
-Qed.
-
-Lemma has_group_body_ok : forall args, (2 <= length args <= 3)%nat -> has_group_body args <> Panic.
+Lemma has_group_body_ok : forall args, (2 <= length args <= 3)%nat -> ok b (has_group_body args).
 Proof.
   intros args H. unfold has_group_body.
-  apply with_arg_ok; [lia|]. intros va0. destruct (to_array va0) as [items|]; [|discriminate].
-  apply with_arg_ok; [lia|]. intros va1. destruct (to_text va1); [|discriminate].
+  apply with_arg_ok; [lia|]. intros va0. destruct (to_array va0) as [items|]; [|exact I].
+  apply with_arg_ok; [lia|]. intros va1. destruct (to_text va1); [|exact I].
   apply has_group_loop_ok. lia.
 Qed.
 
 (* Object: pairs[i+1] is inside because the length is even *)
 Lemma object_pairs_ok : forall fuel pairs i acc,
-  Nat.even (length pairs) = true -> Nat.even i = true -> object_pairs fuel pairs i acc <> Panic.
+  Nat.even (length pairs) = true -> Nat.even i = true -> ok b (object_pairs fuel pairs i acc).
 Proof.
-  induction fuel as [|fuel IH]; intros pairs i acc Hp Hi; simpl; [discriminate|].
-  destruct (Nat.leb (length pairs) i) eqn:E; [discriminate|]. apply Nat.leb_gt in E.
+  induction fuel as [|fuel IH]; intros pairs i acc Hp Hi; simpl; [exact I|].
+  destruct (Nat.leb (length pairs) i) eqn:E; [exact I|]. apply Nat.leb_gt in E.
   assert (Hi1 : (i + 1 < length pairs)%nat).
   { destruct (Nat.eq_dec (i + 1) (length pairs)) as [Heq|Hne]; [|lia].
     rewrite <- Heq in Hp. rewrite Nat.add_1_r, Nat.even_succ, <- Nat.negb_even, Hi in Hp. discriminate. }
   apply with_arg_ok; [lia|]. intros key. apply with_arg_ok; [lia|]. intros val.
-  destruct (to_text key); [|discriminate]. apply IH; [assumption|].
+  destruct (to_text key); [|exact I]. apply IH; [assumption|].
   replace (i + 2)%nat with (S (S i)) by lia. rewrite Nat.even_succ_succ. assumption.
 Qed.
 
-Lemma object_fn_ok : forall args, object_fn args <> Panic.
+Lemma object_fn_ok : forall args, ok b (object_fn args).
 Proof.
-  intros args. unfold object_fn. destruct (find is_err args); [discriminate|].
-  destruct (Nat.eqb (Nat.modulo (length args) 2) 0) eqn:E; cbn [negb]; [|discriminate].
+  intros args. unfold object_fn. destruct (find is_err args); [exact I|].
+  destruct (Nat.eqb (Nat.modulo (length args) 2) 0) eqn:E; cbn [negb]; [|exact I].
   apply object_pairs_ok; [|reflexivity].
   apply Nat.eqb_eq in E. apply Nat.even_spec. exists (length args / 2)%nat.
   pose proof (Nat.div_mod (length args) 2). lia.
 Qed.
 
 End WithExt.
+
+(* ------------------------------------------------------------------------------------------------ *)
+(* the bodies that reach Decimal.Mul / Decimal.QuoRem: the zero-divisor guard is there, the exponent check of
+   the library is the one panic left *)
+
+Lemma dec_eqb_zero : forall d, dec_eqb d (Dec 0 0) = true <-> mant d = 0.
+Proof.
+  intros [m e]. unfold dec_eqb, dec_cmp, rescale_pair. simpl.
+  rewrite Z.compare_eq_iff || idtac.
+  destruct (Z.compare_spec (m * 10 ^ (e - Z.min e 0)) 0) as [H|H|H]; split; intros H'; try discriminate; try reflexivity.
+  - apply Z.mul_eq_0 in H as [H|H]; [assumption|]. pose proof (pow10_pos' (e - Z.min e 0)). lia.
+  - subst m. simpl in H. lia.
+  - subst m. simpl in H. lia.
+Qed.
+
+Lemma dec_quorem_class : forall x y p c, dec_quorem x y p = inl c -> (c = PDivZero /\ mant y = 0) \/ c = PExponent.
+Proof.
+  intros x y p c. unfold dec_quorem. destruct (mant y =? 0) eqn:E.
+  - intros H. injection H as <-. left. split; [reflexivity|apply Z.eqb_eq; assumption].
+  - destruct (negb _); [|discriminate]. intros H. injection H as <-. right. reflexivity.
+Qed.
+
+Lemma mod_body_ok : forall x y, ok true (mod_body x y).
+Proof.
+  intros x y. unfold mod_body. destruct (dec_eqb y (Dec 0 0)) eqn:E; [exact I|].
+  unfold dec_mod. destruct (dec_quorem x y 0) as [c|[q r]] eqn:Eq; [|exact I].
+  apply dec_quorem_class in Eq. destruct Eq as [[Hc Hz]|Hc]; subst c; [|reflexivity].
+  apply dec_eqb_zero in Hz. congruence.
+Qed.
+
+(* F4a: a zero divisor is an error VALUE *)
+Lemma mod_body_zero : forall x y, mant y = 0 -> mod_body x y = Ret VErr.
+Proof. intros x y H. unfold mod_body. apply dec_eqb_zero in H. rewrite H. reflexivity. Qed.
+
+Lemma mean_body_ok : forall args, (1 <= length args)%nat -> ok true (mean_body args).
+Proof.
+  intros args H. unfold mean_body. destruct (sum_numbers args (Dec 0 0)) as [sum|]; [|exact I].
+  unfold dec_div, dec_div_round. destruct (dec_quorem sum (dec_of_Z (zlen args)) division_precision) as [c|[q r]] eqn:Eq.
+  - apply dec_quorem_class in Eq. destruct Eq as [[Hc Hz]|Hc]; subst c; [|reflexivity].
+    simpl in Hz. unfold zlen in Hz. lia.
+  - destruct (dec_cmp _ _); exact I.
+Qed.
+
+Lemma percent_body_ok : forall d, ok true (percent_body d).
+Proof. intros d. unfold percent_body. destruct (dec_mul d (Dec 1 2)); [exact I|reflexivity]. Qed.
+
+(* ------------------------------------------------------------------------------------------------ *)
+(* the registry *)
+
+Lemma fname_eq_foreach : forall f, {f = FForEach} + {f <> FForEach}.
+Proof. intros f. destruct f; try (right; discriminate); left; reflexivity. Qed.
+
+
+Section Calls.
+
+Variable wclass : N -> N.
+Variable regex_submatch : text -> text -> option (list text).
+Variable ext_call : N -> list value -> res.
+
+Notation call_simple := (call_simple wclass regex_submatch ext_call).
+Notation call := (call wclass regex_submatch ext_call).
+Notation call_function := (call_function wclass regex_submatch ext_call).
+
+(* functions whose model never panics, whatever the arguments *)
+Definition exponent_free (f : fname) : bool :=
+  match f with
+  | FMod | FMean | FPercent | FForEach | FOther _ => false
+  | _ => true
+  end.
+
+Lemma call_simple_exponent_free : forall f args, exponent_free f = true -> ok false (call_simple f args).
+Proof.
+  intros f args Hf. destruct f; try discriminate Hf; unfold ExEval.call_simple.
+  - apply initial_text_function_ok. intros; apply word_body_ok; assumption.
+  - apply initial_text_function_ok. intros; apply word_slice_body_ok; assumption.
+  - apply initial_text_function_ok. intros; apply field_body_ok; lia.
+  - apply initial_text_function_ok. intros; apply text_slice_body_ok; assumption.
+  - apply one_number_function_ok. apply char_body_ok.
+  - apply text_and_integer_function_ok. apply repeat_body_ok.
+  - apply min_max_args_ok. intros a [H1 [H2|H2]]; [lia|]. apply replace_body_ok; lia.
+  - apply one_number_and_optional_integer_function_ok. apply round_body_ok.
+  - apply one_number_and_optional_integer_function_ok. apply round_up_body_ok.
+  - apply one_number_and_optional_integer_function_ok. apply round_down_body_ok.
+  - apply min_max_args_ok. intros a [H1 _]. apply extreme_body_ok; lia.
+  - apply min_max_args_ok. intros a [H1 _]. apply extreme_body_ok; lia.
+  - apply min_max_args_ok. intros a [H1 [H2|H2]]; [lia|]. apply format_number_body_ok; lia.
+  - apply three_integer_function_ok. apply date_from_parts_body_ok.
+  - apply three_integer_function_ok. apply time_from_parts_body_ok.
+  - apply datetime_add_fn_ok.
+  - apply array_fn_ok.
+  - apply object_fn_ok.
+  - apply min_max_args_ok. intros a [H1 _]. apply extract_object_body_ok; lia.
+  - apply initial_text_function_ok. intros; apply regex_match_body_ok; assumption.
+  - apply min_max_args_ok. intros a [H1 [H2|H2]]; [lia|]. apply has_group_body_ok; lia.
+Qed.
+
+Lemma call_not_foreach : forall fuel f args, f <> FForEach -> call fuel f args = call_simple f args.
+Proof. intros fuel f args H. destruct fuel; destruct f; try reflexivity; contradiction. Qed.
+
+Hypothesis ext_ok : forall id args, ok true (ext_call id args).
+
+Lemma call_simple_ok : forall f args, f <> FForEach -> ok true (call_simple f args).
+Proof.
+  intros f args Hf. destruct (exponent_free f) eqn:E.
+  - apply ok_weaken. apply call_simple_exponent_free. assumption.
+  - destruct f; try discriminate E; unfold ExEval.call_simple.
+    + apply two_number_function_ok. apply mod_body_ok.
+    + apply min_max_args_ok. intros a [H1 _]. apply mean_body_ok; lia.
+    + apply one_number_function_ok. apply percent_body_ok.
+    + contradiction.
+    + apply ext_ok.
+Qed.
+
+Lemma foreach_items_ok : forall bb call_f items other acc,
+  (forall a, ok bb (call_f a)) -> ok bb (foreach_items call_f items other acc).
+Proof.
+  intros bb call_f items other. induction items as [|item r IH]; intros acc H; simpl; [exact I|].
+  pose proof (H (item :: other)) as H1. destruct (call_f (item :: other)) as [v|c|]; try assumption.
+  destruct (is_err v); [exact I|]. apply IH. assumption.
+Qed.
+
+Lemma call_ok : forall fuel f args, ok true (call fuel f args).
+Proof.
+  induction fuel as [|fuel IH]; intros f args.
+  - destruct (fname_eq_foreach f) as [->|Hne]; [|rewrite call_not_foreach by assumption; apply call_simple_ok; assumption].
+    simpl. apply min_max_args_ok. intros a [H1 _].
+    apply with_arg_ok; [lia|]. intros v0. destruct (to_array v0); [|exact I].
+    apply with_arg_ok; [lia|]. intros v1. destruct (to_function v1); [|exact I].
+    apply with_rest_ok; [lia|]. intros; exact I.
+  - destruct (fname_eq_foreach f) as [->|Hne]; [|rewrite call_not_foreach by assumption; apply call_simple_ok; assumption].
+    simpl. apply min_max_args_ok. intros a [H1 _].
+    apply with_arg_ok; [lia|]. intros v0. destruct (to_array v0); [|exact I].
+    apply with_arg_ok; [lia|]. intros v1. destruct (to_function v1) as [g|]; [|exact I].
+    apply with_rest_ok; [lia|]. intros r _. apply foreach_items_ok. intros a'. apply IH.
+Qed.
+
+End Calls.
+
+(* ------------------------------------------------------------------------------------------------ *)
+(* operators, lookups, the tree evaluator *)
+
+Lemma eval_binop_ok : forall op x y, ok true (eval_binop op x y).
+Proof.
+  intros op x y. destruct op; simpl; unfold textual_binary, numerical_binary, cmp_is;
+    try (destruct (to_text x); [|exact I]; destruct (to_text y); exact I);
+    (destruct (to_number x) as [n1|]; [|exact I]; destruct (to_number y) as [n2|]; [|exact I]); try exact I.
+  - destruct (dec_mul n1 n2); [exact I|reflexivity].
+  - destruct (dec_eqb n2 (Dec 0 0)) eqn:E; [exact I|].
+    unfold dec_div, dec_div_round. destruct (dec_quorem n1 n2 division_precision) as [c|[q r]] eqn:Eq.
+    + apply dec_quorem_class in Eq. destruct Eq as [[Hc Hz]|Hc]; subst c; [|reflexivity].
+      apply dec_eqb_zero in Hz. congruence.
+    + destruct (dec_cmp _ _); exact I.
+Qed.
+
+(* every operator except * and / is free of panics of any class *)
+Lemma eval_binop_no_panic : forall op x y, op <> OMul -> op <> ODiv -> ok false (eval_binop op x y).
+Proof.
+  intros op x y H1 H2. destruct op; try contradiction; simpl; unfold textual_binary, numerical_binary, cmp_is;
+    try (destruct (to_text x); [|exact I]; destruct (to_text y); exact I);
+    (destruct (to_number x) as [n1|]; [|exact I]; destruct (to_number y) as [n2|]; exact I).
+Qed.
+
+(* the divide-by-zero guard: an error VALUE *)
+Lemma eval_div_zero : forall x y n1 n2, to_number x = Ok n1 -> to_number y = Ok n2 -> mant n2 = 0 ->
+  eval_binop ODiv x y = Ret VErr.
+Proof.
+  intros x y n1 n2 H1 H2 Hz. simpl. unfold numerical_binary. rewrite H1, H2.
+  apply dec_eqb_zero in Hz. rewrite Hz. reflexivity.
+Qed.
+
+Lemma eval_neg_ok : forall x, ok false (eval_neg x).
+Proof. intros x. unfold eval_neg. destruct (to_number x); exact I. Qed.
+
+Lemma resolve_lookup_ok : forall c l dot, ok false (resolve_lookup c l dot).
+Proof.
+  intros c l dot. unfold resolve_lookup. destruct c; try exact I.
+  - destruct (to_integer l) as [index|]; [|exact I].
+    destruct ((zlen items <=? index) || (index <? - zlen items)) eqn:E; [exact I|].
+    apply orb_false_iff in E as [E1 E2]. apply Z.leb_gt in E1. apply Z.ltb_ge in E2.
+    apply guarded_index; [|intros; exact I].
+    destruct (index <? 0) eqn:E3; [apply Z.ltb_lt in E3|apply Z.ltb_ge in E3]; lia.
+  - destruct (to_text l) as [p|]; [|exact I]. destruct (obj_get props p); [exact I|]. destruct dot; exact I.
+Qed.
+
+(* the index >= Count guard: an error VALUE, for indexes on either side *)
+Lemma resolve_lookup_out_of_range : forall items l index dot,
+  to_integer l = Ok index -> (zlen items <= index \/ index < - zlen items) ->
+  resolve_lookup (VArray items) l dot = Ret VErr.
+Proof.
+  intros items l index dot H Hr. unfold resolve_lookup. rewrite H.
+  replace ((zlen items <=? index) || (index <? - zlen items)) with true; [reflexivity|].
+  symmetry. apply orb_true_iff. destruct Hr; [left; apply Z.leb_le|right; apply Z.ltb_lt]; assumption.
+Qed.
+
+Lemma bind_ok : forall bb r k, ok bb r -> (forall v, ok bb (k v)) -> ok bb (bind r k).
+Proof. intros bb [v|c|] k H Hk; simpl; auto. Qed.
+
+(* induction over expression trees (parameters of calls are a nested list) *)
+Lemma expr_ind_nested : forall P : expr -> Prop,
+  (forall v, P (ELit v)) -> (forall n, P (ERef n)) ->
+  (forall c l, P c -> P (EDot c l)) -> (forall c l, P c -> P l -> P (EIdx c l)) ->
+  (forall fn ps, P fn -> Forall P ps -> P (ECall fn ps)) ->
+  (forall e, P e -> P (ENeg e)) -> (forall op x y, P x -> P y -> P (EBin op x y)) ->
+  forall e, P e.
+Proof.
+  intros P Hl Hr Hd Hi Hc Hn Hb. fix IH 1. intros e. destruct e.
+  - apply Hl.
+  - apply Hr.
+  - apply Hd. apply IH.
+  - apply Hi; apply IH.
+  - apply Hc; [apply IH|]. induction params as [|p r IHr]; constructor; [apply IH|apply IHr].
+  - apply Hn. apply IH.
+  - apply Hb; apply IH.
+Qed.
+
+Section Eval.
+
+Variable wclass : N -> N.
+Variable regex_submatch : text -> text -> option (list text).
+Variable ext_call : N -> list value -> res.
+Variable lookup_function : text -> option fname.
+Hypothesis ext_ok : forall id args, ok true (ext_call id args).
+
+Notation eval := (eval wclass regex_submatch ext_call lookup_function).
+
+Theorem eval_ok : forall ctx e, ok true (eval ctx e).
+Proof.
+  intros ctx e. induction e using expr_ind_nested; simpl.
+  - exact I.
+  - destruct (scope_get lookup_function ctx n); exact I.
+  - apply bind_ok; [assumption|]. intros cv. destruct (is_err cv); [exact I|].
+    apply ok_weaken. apply resolve_lookup_ok.
+  - apply bind_ok; [assumption|]. intros cv. destruct (is_err cv); [exact I|].
+    apply bind_ok; [assumption|]. intros lv. destruct (is_err lv); [exact I|].
+    apply ok_weaken. apply resolve_lookup_ok.
+  - apply bind_ok; [assumption|]. intros fv. destruct (is_err fv); [exact I|].
+    destruct fv; try exact I.
+    generalize (@nil value). induction H as [|p r Hp Hr IHr]; intros acc.
+    + unfold call_function. apply call_ok. assumption.
+    + apply bind_ok; [assumption|]. intros pv. apply IHr.
+  - apply bind_ok; [assumption|]. intros v. apply ok_weaken. apply eval_neg_ok.
+  - apply bind_ok; [assumption|]. intros av. apply bind_ok; [assumption|]. intros bv. apply eval_binop_ok.
+Qed.
+
+End Eval.
+
+(* ------------------------------------------------------------------------------------------------ *)
+(* the int32 range check of ToInteger, with the int64 wrap of IntPart *)
+
+Lemma to_integer_range : forall v i, to_integer v = Ok i -> int32_min <= i <= int32_max.
+Proof.
+  intros v i. unfold to_integer. destruct (to_number v) as [d|]; [|discriminate].
+  destruct ((int_part d <? int32_min) || (int32_max <? int_part d)) eqn:E; [discriminate|].
+  intros H. injection H as <-. apply orb_false_iff in E as [E1 E2].
+  apply Z.ltb_ge in E1. apply Z.ltb_ge in E2. lia.
+Qed.
+
+(* 2^64 wraps to 0 and passes the range check (char(18446744073709551616) is "\x00"); 2^31 does not *)
+Example to_integer_wraps : to_integer (VNum (Dec 18446744073709551616 0)) = Ok 0.
+Proof. vm_compute. reflexivity. Qed.
+Example to_integer_rejects : to_integer (VNum (Dec 2147483648 0)) = Bad.
+Proof. vm_compute. reflexivity. Qed.
+
+(* ------------------------------------------------------------------------------------------------ *)
+(* work bound for the loops driven by a numeric argument *)
+
+Lemma repeat_text_length : forall t n, length (repeat_text t n) = (n * length t)%nat.
+Proof. intros t n. induction n as [|n IH]; simpl; [reflexivity|]. rewrite app_length, IH. reflexivity. Qed.
+
+Definition work_constant : N := 408%N.
+
+Section Work.
+
+Variable wclass : N -> N.
+Variable regex_submatch : text -> text -> option (list text).
+Variable ext_call : N -> list value -> res.
+Notation call_function := (call_function wclass regex_submatch ext_call).
+
+(* numeric arguments are at least as large as the number they denote: holds by definition for number values *)
+Definition numbers_sized (args : list value) : Prop :=
+  forall a d, In a args -> to_number a = Ok d -> (dec_size d <= value_size a)%N.
+
+Lemma numbers_sized_numbers : forall ds, numbers_sized (map VNum ds).
+Proof.
+  intros ds a d Hin H. apply in_map_iff in Hin as [d' [<- _]]. simpl in H. injection H as ->. simpl. lia.
+Qed.
+
+Lemma args_size_in : forall a args, In a args -> (value_size a <= args_size args)%N.
+Proof.
+  intros a args. induction args as [|x r IH]; simpl; [contradiction|].
+  intros [->|H]; [lia|]. specialize (IH H). lia.
+Qed.
+
+Lemma round_work_bound : forall d places,
+  bad_places places = false -> (2 * round_work d places + 2 <= work_constant * (dec_size d + 1))%N.
+Proof.
+  intros d places H. unfold bad_places, max_rounding_places in H. apply orb_false_iff in H as [H1 H2].
+  apply Z.ltb_ge in H1. apply Z.ltb_ge in H2. unfold round_work, work_constant.
+  assert (Z.abs_N (dexp d + places + 1) <= dec_size d + 101)%N.
+  { unfold dec_size. lia. }
+  lia.
+Qed.
+
+Theorem work_bound : forall f args, numbers_sized args ->
+  (work f args <= work_constant * (args_size args + res_size (call_function f args) + 1))%N.
+Proof.
+  intros f args Hs. unfold work.
+  destruct f; try (apply N.le_0_l); destruct args as [|a0 r]; try (apply N.le_0_l).
+  - (* repeat *)
+    destruct r as [|a1 [|a2 r]]; try (apply N.le_0_l).
+    destruct (to_text a0) as [t|] eqn:Et; [|apply N.le_0_l].
+    destruct (to_integer a1) as [count|] eqn:Ec; [|apply N.le_0_l].
+    destruct (count <? 0) eqn:En; [apply N.le_0_l|]. destruct t as [|c t]; [apply N.le_0_l|].
+    assert (Hr : call_function FRepeat [a0; a1] = Ret (VText (repeat_text (c :: t) (Z.to_nat count)))).
+    { unfold ExEval.call_function. simpl. unfold text_and_integer_function, num_args, min_max_args, with_arg. simpl.
+      rewrite Et, Ec. unfold repeat_body. rewrite En. reflexivity. }
+    rewrite Hr. simpl res_size. unfold value_size. simpl render_value. rewrite repeat_text_length.
+    apply Z.ltb_ge in En. unfold work_constant. lia.
+  - (* round *)
+    destruct (to_number a0) as [d|] eqn:Ed; [|apply N.le_0_l].
+    assert (Hd : (dec_size d <= args_size (a0 :: r))%N).
+    { etransitivity; [apply (Hs a0 d); [left; reflexivity|assumption]|apply args_size_in; left; reflexivity]. }
+    destruct r as [|a1 r].
+    + pose proof (round_work_bound d 0 eq_refl). unfold work_constant in *. lia.
+    + destruct (to_integer a1) as [places|]; [|apply N.le_0_l].
+      destruct (bad_places places) eqn:Eb; [apply N.le_0_l|].
+      pose proof (round_work_bound d places Eb). unfold work_constant in *. lia.
+  - destruct (to_number a0) as [d|] eqn:Ed; [|apply N.le_0_l].
+    assert (Hd : (dec_size d <= args_size (a0 :: r))%N).
+    { etransitivity; [apply (Hs a0 d); [left; reflexivity|assumption]|apply args_size_in; left; reflexivity]. }
+    destruct r as [|a1 r].
+    + pose proof (round_work_bound d 0 eq_refl). unfold work_constant in *. lia.
+    + destruct (to_integer a1) as [places|]; [|apply N.le_0_l].
+      destruct (bad_places places) eqn:Eb; [apply N.le_0_l|].
+      pose proof (round_work_bound d places Eb). unfold work_constant in *. lia.
+  - destruct (to_number a0) as [d|] eqn:Ed; [|apply N.le_0_l].
+    assert (Hd : (dec_size d <= args_size (a0 :: r))%N).
+    { etransitivity; [apply (Hs a0 d); [left; reflexivity|assumption]|apply args_size_in; left; reflexivity]. }
+    destruct r as [|a1 r].
+    + pose proof (round_work_bound d 0 eq_refl). unfold work_constant in *. lia.
+    + destruct (to_integer a1) as [places|]; [|apply N.le_0_l].
+      destruct (bad_places places) eqn:Eb; [apply N.le_0_l|].
+      pose proof (round_work_bound d places Eb). unfold work_constant in *. lia.
+Qed.
+
+End Work.
